@@ -138,3 +138,51 @@ V("C12", "stray-end-aborts", "F", "R2", EXP, "    if ignore_end > ignore_start:\
 V("C12", "end-marker-kept", "F", "R2", EXP, "        ignore_end = text.index(REUSE_IGNORE_END) + len(REUSE_IGNORE_END)\n", "        ignore_end = text.index(REUSE_IGNORE_END)\n")
 V("C12", "no-recursion", "F", "R2", EXP, "        return text[:ignore_start] + filter_ignore_block(text[ignore_end:])\n", "        return text[:ignore_start] + text[ignore_end:]\n")
 V("C12", "is-not-none-form", "S", "", EXP, "    if ignore_start is None:\n        return text\n", "    if not (ignore_start is not None):\n        return text\n")
+
+# ----------------------------------------------------------------- C20
+CPP = R + "copyright.py"
+V("C20", "prefix-bracket-c", "F", "R1", CPP, '"string-c": "Copyright (C)",', '"string-c": "Copyright [C]",')
+V("C20", "prefix-lowercase", "F", "R1", CPP, '"string": "Copyright",', '"string": "copyright",')
+V("C20", "reader-no-symbol-after-copyright", "F", "R1", EXP, 'r"(?P<copyright>(?P<prefix>Copyright(\\s(\\([Cc]\\)|©))?)\\s+"', 'r"(?P<copyright>(?P<prefix>Copyright(\\s(\\([Cc]\\)))?)\\s+"')
+V("C20", "year-needs-no-space-variants", "F", "R1", EXP,
+  'r"(?P<copyright>(?P<prefix>©)\\s+"\n        r"((?P<year>\\d{4} ?- ?\\d{4}|\\d{4}),?\\s+)?"',
+  'r"(?P<copyright>(?P<prefix>©)\\s+"\n        r"((?P<year>\\d{4}-\\d{4}|\\d{4}),?\\s+)?"')
+V("C20", "builder-drops-year", "F", "R2", CPP, '        return f"{prefix} {year} {statement}"\n', '        return f"{prefix} {statement}"\n')
+V("C20", "builder-reprefixes-notices", "F", "R2", CPP,
+  "    for pattern in _COPYRIGHT_PATTERNS:\n        match = pattern.search(statement)\n        if match is not None:\n            return statement\n", "")
+V("C20", "merge-min-min", "F", "R3", CPP, 'year = f"{min(years)} - {max(years)}"', 'year = f"{min(years)} - {min(years)}"')
+V("C20", "merge-skips-yearless", "F", "R3", CPP, "        # get year range if any\n", "        if not line_info['year']:\n            continue\n        # get year range if any\n")
+V("C20", "get-year-first-only", "F", "R4", R + "cli/annotate.py", 'year = f"{min(years)} - {max(years)}"', 'year = years[0]')
+V("C20", "builder-if-else", "S", "", CPP,
+  '    if year is not None:\n        return f"{prefix} {year} {statement}"\n    return f"{prefix} {statement}"',
+  '    if year is None:\n        return f"{prefix} {statement}"\n    return f"{prefix} {year} {statement}"')
+
+# ----------------------------------------------------------------- C04
+PRJ = R + "project.py"
+V("C04", "closest-first-only-again", "F", "R1", PRJ,
+  "            for closest in global_results[PrecedenceType.CLOSEST]:\n                if file_result.copyright_lines:",
+  "            for closest in global_results[PrecedenceType.CLOSEST][:1]:\n                if file_result.copyright_lines:")
+V("C04", "swap-extends", "F", "R1", PRJ,
+  "        result.extend(global_results[PrecedenceType.OVERRIDE])\n        result.extend(global_results[PrecedenceType.AGGREGATE])\n",
+  "        result.extend(global_results[PrecedenceType.AGGREGATE])\n        result.extend(global_results[PrecedenceType.OVERRIDE])\n")
+V("C04", "override-still-reads", "F", "R1", PRJ, "        elif is_binary(str(path)):\n            _LOGGER.info(\n                _(\n                    \"'{path}' was detected as a binary file; not searching its\"",
+  "        if is_binary(str(path)):\n            _LOGGER.info(\n                _(\n                    \"'{path}' was detected as a binary file; not searching its\"")
+V("C04", "aggregate-dropped", "F", "R1", PRJ, "        result.extend(global_results[PrecedenceType.AGGREGATE])\n", "")
+V("C04", "closest-always", "F", "R1", PRJ, "        if not file_result.contains_copyright_or_licensing():\n            result.extend(global_results[PrecedenceType.CLOSEST])",
+  "        if True:\n            result.extend(global_results[PrecedenceType.CLOSEST])")
+V("C04", "wrong-attribute-blanked", "F", "R1", PRJ,
+  "                if file_result.copyright_lines:\n                    closest = closest.copy(copyright_lines=set())\n                else:\n                    closest = closest.copy(spdx_expressions=set())",
+  "                if file_result.copyright_lines:\n                    closest = closest.copy(spdx_expressions=set())\n                else:\n                    closest = closest.copy(copyright_lines=set())")
+V("C04", "first-match-wins", "F", "R3", GLP, "        for item in reversed(self.annotations):", "        for item in self.annotations:")
+V("C04", "no-break-at-override", "F", "R4", GLP, "            if item.precedence == PrecedenceType.OVERRIDE:\n                # No more!\n                break\n", "")
+V("C04", "unsorted-tomls", "F", "R4", GLP, "        found.sort(key=lambda toml: toml.directory.parts)\n", "")
+V("C04", "dep5-closest", "F", "R5", GLP, "            PrecedenceType.AGGREGATE: [\n                ReuseInfo(\n                    spdx_expressions=set(\n                        map(_LICENSING.parse",
+  "            PrecedenceType.CLOSEST: [\n                ReuseInfo(\n                    spdx_expressions=set(\n                        map(_LICENSING.parse")
+V("C04", "cleanup-keeps-outermost", "F", "R4", GLP, "        for info in reversed(result[PrecedenceType.CLOSEST]):", "        for info in result[PrecedenceType.CLOSEST]:")
+V("C04", "cleanup-shared-flag", "F", "R4", GLP, "            if not licence_found and info.spdx_expressions:", "            if not copyright_found and info.spdx_expressions:")
+V("C04", "conflict-tolerated", "F", "R6", PRJ, "            if candidates:\n                raise GlobalLicensingConflictError(", "            if candidates and False:\n                raise GlobalLicensingConflictError(")
+V("C04", "license-sibling-ignored", "F", "R2", R + "_util.py", "    if not license_path.exists():\n        license_path = Path(path)\n    return license_path", "    license_path = Path(path)\n    return license_path")
+V("C04", "reads-original-not-license", "F", "R1", PRJ, "            file_result = reuse_info_of_file(path, original_path, self.root)", "            file_result = reuse_info_of_file(original_path, original_path, self.root)")
+V("C01", "error-results-treated-as-reports", "F", "R3", R + "report.py",
+  "            if result.error:\n                _process_error(result.error, result.path)\n                project_report.read_errors.add(Path(result.path))\n                continue\n\n            file_report = cast(FileReport, result.report)\n\n            # File report.",
+  "            file_report = cast(FileReport, result.report)\n\n            # File report.")
